@@ -203,6 +203,10 @@ func runC16(planJSON []byte) (*RunResult, error) {
 		res.Nontrivial++
 		site := writeSiteClass(ex.core.FailedPayload)
 		res.count("wfault_fired."+f.W.Kind, 1)
+		res.count("wfault_dest."+f.Writer, 1)
+		if f.W.Err != "" {
+			res.count("wfault_errvalue."+f.W.Err, 1)
+		}
 		res.count("wfault_site."+site, 1)
 		if f.Combined {
 			res.count("combined_fired", 1)
@@ -282,6 +286,7 @@ func runC16(planJSON []byte) (*RunResult, error) {
 		}
 		res.Nontrivial++
 		res.count("rfault_fired."+f.R.Kind, 1)
+		res.count("rfault_dest."+f.Writer, 1)
 		if f.R.WithData {
 			res.count("rfault_with_data", 1)
 		}
@@ -328,9 +333,13 @@ func runC16(planJSON []byte) (*RunResult, error) {
 	likeC := pl.Like == nil || (pl.Like.R != nil && pl.Like.W != nil)
 
 	// ---- writer faults: every index (all when w<=64) x every kind x both writer kinds ----
-	for _, wk := range []string{"sw", "plain"} {
+	ff["rich"], ff["plainflush"] = ff["sw"], ff["plain"] // same write sequences, other optional methods
+	for _, wk := range []string{"sw", "plain", "rich", "plainflush"} {
 		ref := ff[wk]
 		w := ref.Calls
+		if (wk == "rich" || wk == "plainflush") && w > 12 {
+			continue // the flushable kinds get the full enumeration on small cases only
+		}
 		for _, k := range sampleIdx(r, w, 64) {
 			l := ref.core.Lens[k]
 			kinds := []WFault{{K: k, Kind: "perm"}, {K: k, Kind: "once"}, {K: k, Kind: "full"}}
@@ -342,6 +351,7 @@ func runC16(planJSON []byte) (*RunResult, error) {
 			}
 			for i := range kinds {
 				wf := kinds[i]
+				wf.Err = writeErrKinds[r.Intn(len(writeErrKinds))]
 				if likeW(wk, wf.Kind) {
 					checkWriterFault(C16Fault{Writer: wk, W: &wf}, ref.Accepted)
 				}
@@ -371,10 +381,7 @@ func runC16(planJSON []byte) (*RunResult, error) {
 		for _, wd := range []bool{false, true} {
 			kind := readErrKinds[r.Intn(len(readErrKinds))]
 			rf := RFault{At: j, Kind: kind, WithData: wd}
-			wk := "sw"
-			if r.Bool(0.3) {
-				wk = "plain"
-			}
+			wk := []string{"sw", "sw", "plain", "rich", "plainflush"}[r.Intn(5)]
 			ex, ok := checkReaderFault(C16Fault{Writer: wk, R: &rf})
 			if ok && wk == "sw" && r.Bool(0.15) {
 				fired = append(fired, rfRef{j, ex, wd, kind})
